@@ -9,7 +9,7 @@ from checks import track, track_mc
 
 KINDS = [(c, d, f, w) for c in ("ok", "bad", "none") for d in (True, False) for f in (True, False) for w in (True, False)]
 
-def lifecycle_script(sid, seq, okdir, baddir, uid0, leak=True):
+def lifecycle_script(sid, seq, okdir, baddir, uid0, leak=True, busy=False):
     """seq: list of ('start', cfg, debug, flush, works) | ('stop',)"""
     s = drv.Script(sid); ev = []
     s.add("bus clear"); s.add("bus on"); s.add("bus node 00 00 00 " + "".join("%02x" % x for x in uid0))
@@ -20,6 +20,11 @@ def lifecycle_script(sid, seq, okdir, baddir, uid0, leak=True):
             s.add("bus silent %d" % (0 if w else 1)); s.add("debug %d" % (1 if d else 0))
             i = len(s.lines); s.add("start %s %d" % ({"ok": okdir, "bad": baddir, "none": "~"}[c], 5 if f else 0))
             j = len(s.lines); s.add("globals")
+            if busy:                                   # leave work behind: exhausted budget, held messages, a stalled node, queued uplink
+                for k in range(11): s.add("ll bidib_send_sys_get_magic 01 00 00")
+                s.add("feed " + wire.hexs(wire.packet([wire.msg([2], 0, 0x8e, [1])])))
+                for k in range(3): s.add("ll bidib_send_sys_ping 02 00 00 %02x" % k)
+                s.add("feed " + wire.hexs(wire.packet([wire.msg([1], 0, 0x82, [k]) for k in range(5)])))
             ev.append(((i, j), {"e": "start", "cfg": c, "debug": d, "flush": f, "works": w}))
         else:
             i = len(s.lines); s.add("stop"); ev.append(((i, None), {"e": "stop"}))
@@ -70,7 +75,7 @@ def _run(ctx, thorough, rng, exe, tmp):
         seqs.append(sq)
     scripts = []; meta = {}
     for i, sq in enumerate(seqs):
-        s, ev, lk = lifecycle_script("lc%d" % i, sq, okdir, baddir, uid0, leak=(thorough or i % 6 == 0)); scripts.append(s); meta[s.sid] = (s, ev, lk, sq)
+        s, ev, lk = lifecycle_script("lc%d" % i, sq, okdir, baddir, uid0, leak=(thorough or i % 6 == 0), busy=(i % 3 == 0)); scripts.append(s); meta[s.sid] = (s, ev, lk, sq)
     res = drv.run(exe, scripts, timeout=60)
     events = []; bounds = []
     for s in scripts:
@@ -125,7 +130,12 @@ def _run(ctx, thorough, rng, exe, tmp):
                     fn, sa, iv = g.rand_command(rng, s); s.hl(fn, sa, iv)
                 else: s.up([], 0x8a, [rng.choice([32, 100, 200])])          # the interface announces a packet capacity
             if rng.random() < 0.5: s.flush()
-            s.tick(3); s.stop(); chain.append(s)
+            if rng.random() < 0.5: s.tick(3)
+            else:                                      # stop with an exhausted budget and held messages
+                for b in [x["id"] for x in c["boards"]][:2]:
+                    for k in range(12): s.hl("bidib_ping", [b], k)
+            s.stop(); chain.append(s)
+        chain[-1].s.add("leakcheck")
         multi.append(chain)
     res = drv.run(exe, [ch[0].s for ch in multi], timeout=120)
     items = []
@@ -134,6 +144,10 @@ def _run(ctx, thorough, rng, exe, tmp):
         if rr is None or rr.status != "ok":
             ctx.violation("multi-session script %s: process ended with %s" % (ch[0].sid, rr.status if rr else "missing"),
                           {"kind": "crash", "script": ch[0].s.text(), "stderr": rr.stderr[-4000:] if rr else ""}); continue
+        lk = [o[0] for o in rr.out.values() if o and o[0].get("op") == "leakcheck"]
+        if lk and lk[0].get("leaks") not in (0, None):
+            ctx.violation("multi-session script %s: LeakSanitizer reports memory that bidib_stop did not release" % ch[0].sid,
+                          {"kind": "leak", "script": ch[0].s.text(), "stderr": rr.stderr[-6000:]})
         evs = []; bad = False
         for s in ch:
             ev, probs = g.to_events(s, rr)
